@@ -739,13 +739,12 @@ theorem CommentMid.noVspace {env : Env} {sub : List Char} {mid : List Piece}
   · subst hq; simp
   · rcases hq with rfl | rfl | rfl <;> simp
 
-/-- The middle of `process_comment`: no panic when indentation strings exist. -/
-theorem commentBody_spec (env : Env) (hind : IndentOk env.config) (sub : List Char) (v1 : Vis)
-    (ci : Indent) (osl : Bool) (hosl : osl = true → env.ed2024 = true) :
-    ∃ mid, commentBody env sub v1 ci osl = some (mid.foldl (fun v q => v.push q.tag q.text) v1) ∧
+/-- Writing one comment slice: no panic when indentation strings exist. -/
+theorem commentLines_spec (env : Env) (hind : IndentOk env.config) (sub : List Char) (v1 : Vis)
+    (ci : Indent) (sh : Shape) (osl : Bool) (hosl : osl = true → env.ed2024 = true) :
+    ∃ mid, commentLines env sub v1 ci sh osl = some (mid.foldl (fun v q => v.push q.tag q.text) v1) ∧
       CommentMid env sub mid := by
-  unfold commentBody
-  simp only
+  unfold commentLines
   cases osl with
   | false => exact ⟨_, rfl, CommentMid.whole _⟩
   | true =>
@@ -775,13 +774,19 @@ theorem commentBody_spec (env : Env) (hind : IndentOk env.config) (sub : List Ch
           · rw [hs]; simp
           · rw [hoff, utf8Len_append]; simp [utf8Len, nl_size]
         rw [hnl1, hdrop]
-        generalize Shape.legacy (min env.config.comment_width
-          (env.config.max_width - v1.blockIndent.width)) ci = sh
         by_cases hsl : startsWith sub ['/', '/'] = true
         · exact ⟨[⟨.comment, a⟩, ⟨.blank, nl⟩, ⟨.comment, rcOr env (trimStart b) sh⟩], by simp [hsl],
             CommentMid.split a b (trimStart b) nl sh hed hs (Or.inr rfl) hnl2⟩
         · exact ⟨[⟨.comment, a⟩, ⟨.blank, nl⟩, ⟨.comment, rcOr env b sh⟩], by simp [hsl],
             CommentMid.split a b b nl sh hed hs (Or.inl rfl) hnl2⟩
+
+/-- The middle of `process_comment`: no panic when indentation strings exist. -/
+theorem commentBody_spec (env : Env) (hind : IndentOk env.config) (sub : List Char) (v1 : Vis)
+    (ci : Indent) (osl : Bool) (hosl : osl = true → env.ed2024 = true) :
+    ∃ mid, commentBody env sub v1 ci osl = some (mid.foldl (fun v q => v.push q.tag q.text) v1) ∧
+      CommentMid env sub mid := by
+  unfold commentBody
+  exact commentLines_spec env hind sub v1 ci _ osl hosl
 
 /-- What `process_comment` pushes for the comment slice `sub`: fixed blanks, the comment, fixed blanks. -/
 def CommentOut (env : Env) (sub : List Char) (o : List Piece) : Prop :=
